@@ -1,33 +1,37 @@
-/- C14: ties to the source text.  Built and audited together with Props/C14.lean by check.py, but in a module of its own, so that a
+/- C07: ties to the source text.  Built and audited together with Props/C07.lean by check.py, but in a module of its own, so that a
    changed textual fact breaks the obligations of the properties that own it and not those of every module that imports their lemmas. -/
-import CosetProofs.Ties.Serializable
 import CosetProofs.Ties.Compare.Common
+import CosetProofs.Ties.Compare.Context
+import CosetProofs.Ties.Compare.Cwt
 import CosetProofs.Ties.Compare.Encrypt
-import CosetProofs.Ties.Compare.Iana
+import CosetProofs.Ties.Compare.Header
+import CosetProofs.Ties.Compare.Key
 import CosetProofs.Ties.Compare.Mac
 import CosetProofs.Ties.Compare.Sign
-namespace Coset.Props.C14
+import CosetProofs.Ties.Compare.Util
+namespace Coset.Props.C07
 
 /-! ### ties to the source text (regenerated on every run, compared in the kernel with the transcribed tree) -/
-/-- the six `TaggedCborSerializable` impls consist of their `TAG` constant only. -/
-theorem tie_serializable_impls : Coset.Gen.serializableImpls = Coset.Pinned.serializableImpls := Coset.Ties.serializable_impls
-/-- the provided tagged methods are the ones the model transcribes. -/
-theorem tie_default_bodies : Coset.Gen.defaultBodies = Coset.Pinned.defaultBodies := Coset.Ties.default_bodies
-
-#print axioms tie_serializable_impls
-#print axioms tie_default_bodies
 
 /-! comparisons and integer literals of the modules this property is anchored in (properties.jsonl): none beyond the transcribed tree's -/
 theorem tie_compare_common : Coset.Ties.compareCovered "common" Coset.Gen.decisionBudget Coset.Pinned.decisionBudget = true := Coset.Ties.compare_common
+theorem tie_compare_context : Coset.Ties.compareCovered "context" Coset.Gen.decisionBudget Coset.Pinned.decisionBudget = true := Coset.Ties.compare_context
+theorem tie_compare_cwt : Coset.Ties.compareCovered "cwt" Coset.Gen.decisionBudget Coset.Pinned.decisionBudget = true := Coset.Ties.compare_cwt
 theorem tie_compare_encrypt : Coset.Ties.compareCovered "encrypt" Coset.Gen.decisionBudget Coset.Pinned.decisionBudget = true := Coset.Ties.compare_encrypt
-theorem tie_compare_iana : Coset.Ties.compareCovered "iana" Coset.Gen.decisionBudget Coset.Pinned.decisionBudget = true := Coset.Ties.compare_iana
+theorem tie_compare_header : Coset.Ties.compareCovered "header" Coset.Gen.decisionBudget Coset.Pinned.decisionBudget = true := Coset.Ties.compare_header
+theorem tie_compare_key : Coset.Ties.compareCovered "key" Coset.Gen.decisionBudget Coset.Pinned.decisionBudget = true := Coset.Ties.compare_key
 theorem tie_compare_mac : Coset.Ties.compareCovered "mac" Coset.Gen.decisionBudget Coset.Pinned.decisionBudget = true := Coset.Ties.compare_mac
 theorem tie_compare_sign : Coset.Ties.compareCovered "sign" Coset.Gen.decisionBudget Coset.Pinned.decisionBudget = true := Coset.Ties.compare_sign
+theorem tie_compare_util : Coset.Ties.compareCovered "util" Coset.Gen.decisionBudget Coset.Pinned.decisionBudget = true := Coset.Ties.compare_util
 
 #print axioms tie_compare_common
+#print axioms tie_compare_context
+#print axioms tie_compare_cwt
 #print axioms tie_compare_encrypt
-#print axioms tie_compare_iana
+#print axioms tie_compare_header
+#print axioms tie_compare_key
 #print axioms tie_compare_mac
 #print axioms tie_compare_sign
+#print axioms tie_compare_util
 
-end Coset.Props.C14
+end Coset.Props.C07
